@@ -15,6 +15,11 @@ todo=[m for m in todo if m['id'] not in done and (kinds is None or m['kind'] in 
 # a pristine copy of HEAD (the working tree of /repo may be carrying a seeded patch while this runs)
 if not os.path.exists('/var/tmp/mut-base'):
     os.makedirs('/var/tmp/mut-base'); subprocess.run("git -C /repo archive HEAD | tar -x -C /var/tmp/mut-base",shell=True,check=True)
+# the modules first (their functions carry most of the properties), then types/codec/crypto, then the store
+def prio(m):
+    f=m['file']
+    return (0 if f.startswith('x/') else 1 if f.startswith(('types/','codec/','crypto/')) else 2, m['id'])
+todo.sort(key=prio)
 q=queue.Queue()
 for m in todo: q.put(m)
 lock=threading.Lock()
